@@ -30,12 +30,14 @@ Record st := {
   last_rx : list Z;
   vrem : list (key * list Z);      (* remotes of a connection that were validated with evidence *)
   chg : list (key * (Z * Z));      (* remote in use and frame_rx.path_response when it came into use *)
+  retried : list Z;                (* addresses a Retry was sent to *)
+  resumption : bool;               (* NEW_TOKEN tokens may be in play (0-RTT scenario): bound to the IP only *)
 }.
 
 Definition step (s : st) (r : list Z) : option st :=
   if tag r =? 13 then
     Some {| led := led s; lastp := lastp s; migrated := migrated s || (fld r 2 =? 1);
-            accepted_validated := accepted_validated s; last_rx := last_rx s; vrem := vrem s; chg := chg s |}
+            accepted_validated := accepted_validated s; last_rx := last_rx s; vrem := vrem s; chg := chg s; retried := retried s; resumption := resumption s |}
   else if tag r =? 2 then
     let e := rep r in
     let src := fld r 3 in
@@ -46,6 +48,10 @@ Definition step (s : st) (r : list Z) : option st :=
        provokes no reply *)
     let initial := Z.testbit hf 1 && Z.testbit hf 7 in
     if (e =? 1) && initial && (size <? 1200) && ((out =? 2) || (out =? 3)) then None
+    (* an Initial is treated as coming from a validated address only if a Retry was sent to EXACTLY
+       that address and port (tokens of an earlier connection, bound to the IP, aside) *)
+    else if (e =? 1) && (out =? 2) && (fld r 7 =? 1) && negb (resumption s)
+            && negb (existsb (Z.eqb src) (retried s)) then None
     (* a stateless response is strictly smaller than what provoked it *)
     (* provoked by a short-header datagram: a stateless reset *)
     else if (out =? 3) && Z.testbit hf 5 && negb (fld r 7 <? size) then None
@@ -58,10 +64,10 @@ Definition step (s : st) (r : list Z) : option st :=
                    accepted_validated :=
                      if (out =? 2) && (fld r 7 =? 1) then (e, idx) :: accepted_validated s
                      else accepted_validated s;
-                   last_rx := r; vrem := vrem s; chg := chg s |} in
+                   last_rx := r; vrem := vrem s; chg := chg s; retried := retried s; resumption := resumption s |} in
       Some s1
     else Some {| led := led s; lastp := lastp s; migrated := migrated s;
-                 accepted_validated := accepted_validated s; last_rx := r; vrem := vrem s; chg := chg s |}
+                 accepted_validated := accepted_validated s; last_rx := r; vrem := vrem s; chg := chg s; retried := retried s; resumption := resumption s |}
   else if tag r =? 8 then
     (* validation of a server-side path needs evidence: a Handshake packet from that address, an
        address validated at accept (token / Retry), the address having been validated before
@@ -86,8 +92,13 @@ Definition step (s : st) (r : list Z) : option st :=
       else vrem s in
     if ok then Some {| led := led s; lastp := aset (lastp s) k r; migrated := migrated s;
                        accepted_validated := accepted_validated s; last_rx := last_rx s;
-                       vrem := vrem1; chg := chg1 |}
+                       vrem := vrem1; chg := chg1; retried := retried s; resumption := resumption s |}
     else None
+  else if (tag r =? 1) && (fld r 8 =? 1) then
+    (* a Retry was sent to this address *)
+    Some {| led := led s; lastp := lastp s; migrated := migrated s; accepted_validated := accepted_validated s;
+            last_rx := last_rx s; vrem := vrem s; chg := chg s; retried := fld r 4 :: retried s;
+            resumption := resumption s |}
   else if (tag r =? 1) && (fld r 8 =? 0) then
     let k := rkey r in
     match aget (lastp s) k with
@@ -104,10 +115,10 @@ Definition step (s : st) (r : list Z) : option st :=
         let ok := negb unvalidated || ((snt <? 3 * rcv) && (snt + size <? 3 * rcv + seg)) in
         if ok then Some {| led := lset (led s) lk (snt + size, rcv, hs); lastp := lastp s;
                            migrated := migrated s; accepted_validated := accepted_validated s;
-                           last_rx := last_rx s; vrem := vrem s; chg := chg s |}
+                           last_rx := last_rx s; vrem := vrem s; chg := chg s; retried := retried s; resumption := resumption s |}
         else None
     end
   else Some s.
 
 Definition monitor (i : ops) (o : outs) : option Z :=
-  snd (run_from step 0 {| led := []; lastp := []; migrated := false; accepted_validated := []; last_rx := []; vrem := []; chg := [] |} o).
+  snd (run_from step 0 {| led := []; lastp := []; migrated := false; accepted_validated := []; last_rx := []; vrem := []; chg := []; retried := []; resumption := 0 <? param i 44 0 |} o).
